@@ -432,6 +432,7 @@ func (e *expression) Value(ctx *hcl.EvalContext) (cty.Value, hcl.Diagnostics) {
 		attrs := map[string]cty.Value{}
 		attrRanges := map[string]hcl.Range{}
 		known := true
+		var marks []cty.ValueMarks
 		for _, jsonAttr := range v.Attrs {
 			// In this one context we allow keys to contain interpolation
 			// expressions too, assuming we're evaluating in interpolation
@@ -446,6 +447,11 @@ func (e *expression) Value(ctx *hcl.EvalContext) (cty.Value, hcl.Diagnostics) {
 			val, valDiags := valExpr.Value(ctx)
 			diags = append(diags, nameDiags...)
 			diags = append(diags, valDiags...)
+
+			// As in the native syntax, the marks of a key apply to the object
+			// as a whole.
+			name, nameMarks := name.Unmark()
+			marks = append(marks, nameMarks)
 
 			var err error
 			name, err = convert.Convert(name, cty.String)
@@ -485,10 +491,15 @@ func (e *expression) Value(ctx *hcl.EvalContext) (cty.Value, hcl.Diagnostics) {
 			}
 			nameStr := name.AsString()
 			if _, defined := attrs[nameStr]; defined {
+				detail := fmt.Sprintf("An attribute named %q was already defined at %s.", nameStr, attrRanges[nameStr])
+				if len(nameMarks) > 0 {
+					// Don't reveal a key that came from a marked value.
+					detail = fmt.Sprintf("An attribute with this name was already defined at %s.", attrRanges[nameStr])
+				}
 				diags = append(diags, &hcl.Diagnostic{
 					Severity:    hcl.DiagError,
 					Summary:     "Duplicate object attribute",
-					Detail:      fmt.Sprintf("An attribute named %q was already defined at %s.", nameStr, attrRanges[nameStr]),
+					Detail:      detail,
 					Subject:     &jsonAttr.NameRange,
 					Expression:  e,
 					EvalContext: ctx,
@@ -503,7 +514,7 @@ func (e *expression) Value(ctx *hcl.EvalContext) (cty.Value, hcl.Diagnostics) {
 			// we can't know what our type will eventually be.
 			return cty.DynamicVal, diags
 		}
-		return cty.ObjectVal(attrs), diags
+		return cty.ObjectVal(attrs).WithMarks(marks...), diags
 	case *nullVal:
 		return cty.NullVal(cty.DynamicPseudoType), nil
 	default:
